@@ -1,11 +1,185 @@
 package main
 
+// Replays the callback sequence recorded from the real fetchParts loop into the Lean model: queue operations
+// (Schedule, DeliverBodies, Results) as ordinary ops, and every pass of the loop's `update` branch as one model
+// `tick` whose inputs are what the loop saw from outside the queue (overdue requests, registered/idle peers and
+// capacities). Compared per tick: the ORDER and content of the actions (expire → setIdle/drop → pending →
+// inFlight → idle → (throttle, pending, reserve)* → pending), the outcome, and the canonical queue dump.
+
 import (
+	"fmt"
+	"regexp"
+	"sort"
+	"strconv"
+	"strings"
+
+	"github.com/youchainhq/go-youchain/common"
 	"github.com/youchainhq/go-youchain/core/types"
 	"github.com/youchainhq/go-youchain/you/downloader"
+	"verifharness/internal/vh"
 )
 
-// compareLoopTrace is filled in by the trace comparison (model `tick`); "" = agreement.
-var compareLoopTrace = func(sc loopScenario, hs []*types.Header, res *downloader.VerifLoopResult, drvPath string) string {
+// ticksCompared counts the model ticks compared against real passes (evidence only).
+var ticksCompared, callsCompared int
+
+var lackRe = regexp.MustCompile(` lack=\[[^\]]*\]`)
+
+func stripLack(s string) string { return lackRe.ReplaceAllString(s, "") }
+
+func atoi(s string) int { v, _ := strconv.Atoi(s); return v }
+
+func compareLoopTrace(sc loopScenario, hs []*types.Header, res *downloader.VerifLoopResult, drvPath string) string {
+	drv, err := vh.StartDriver(drvPath)
+	if err != nil {
+		return "cannot start the model driver: " + err.Error()
+	}
+	defer drv.Close()
+	u := &universe{n: len(hs), hcache: map[*types.Header]common.Hash{}, byHash: map[common.Hash]int{}, hashIDs: map[common.Hash]int{{}: 0}, rootIDs: map[common.Hash]int{types.EmptyRootHash: 0}}
+	e := &execT{u: u}
+	limit := res.Limit
+	ask := func(l string) string {
+		s, aerr := drv.Ask(l)
+		if aerr != nil {
+			return "driver-error " + aerr.Error()
+		}
+		return s
+	}
+	ask(fmt.Sprintf("I %d 2048 0 %d", sc.cacheLen, sc.origin))
+	var hl []string
+	for _, h := range hs {
+		hl = append(hl, u.hline(h))
+	}
+	ask(fmt.Sprintf("S %d %d %d %s", limit, sc.origin, len(hs), strings.Join(hl, " ")))
+	evs := res.Events
+	// index of the last E event (the pass after which the loop returned)
+	lastE := -1
+	for i, ev := range evs {
+		if ev.Kind == "E" {
+			lastE = i
+		}
+	}
+	mismatch := func(i int, what, goS, leanS string) string {
+		return fmt.Sprintf("fetch loop, recorded call #%d: %s\n  go:   %s\n  lean: %s", i, what, diffHint(goS, leanS), diffHint(leanS, goS))
+	}
+	for i := 0; i < len(evs); {
+		ev := evs[i]
+		switch ev.Kind {
+		case "X":
+			var parts []string
+			for _, r := range ev.Results {
+				parts = append(parts, fmt.Sprintf("%d/%d/%d", u.hid(u.hashOf(r.Header)), u.rid(types.DeriveSha(r.Transactions)), u.rid(types.DeriveSha(r.Receipts))))
+			}
+			goS := stripLack("res=" + strings.Join(parts, ",") + " # " + e.dumpStr(ev.Dump))
+			if leanS := stripLack(ask(fmt.Sprintf("X %d", limit))); leanS != goS {
+				return mismatch(i, "Results differs", goS, leanS)
+			}
+			i++
+		case "D":
+			var roots []string
+			for _, l := range ev.Lists {
+				roots = append(roots, strconv.Itoa(u.rid(types.DeriveSha(types.Transactions(l)))))
+			}
+			goS := stripLack(fmt.Sprintf("acc=%d err=%s # %s", ev.N, ev.Err, e.dumpStr(ev.Dump)))
+			if leanS := stripLack(ask(fmt.Sprintf("DB %d %s %d %s", limit, ev.Peer, len(roots), strings.Join(roots, " ")))); leanS != goS {
+				return mismatch(i, "DeliverBodies differs", goS, leanS)
+			}
+			i++
+			for i < len(evs) && evs[i].Kind == "SI" { // setIdle after a delivery
+				i++
+			}
+		case "E":
+			j := i + 1
+			for j < len(evs) && evs[j].Kind != "E" && evs[j].Kind != "D" && evs[j].Kind != "X" {
+				j++
+			}
+			pass := evs[i:j]
+			// inputs of the tick
+			type pc struct{ p, c int }
+			var over []pc
+			var known []int
+			for k, id := range ev.Ids {
+				over = append(over, pc{atoi(id), ev.Counts[k]})
+				if ev.Known[k] {
+					known = append(known, atoi(id))
+				}
+			}
+			sort.Slice(over, func(a, b int) bool { return over[a].p < over[b].p })
+			sort.Ints(known)
+			var idle []string
+			total := 0
+			var acts, hacts []string
+			var es []string
+			for _, o := range over {
+				es = append(es, fmt.Sprintf("%d:%d", o.p, o.c))
+			}
+			acts = append(acts, "E["+strings.Join(es, ",")+"]")
+			lastDump := ev.Dump
+			type ha struct {
+				p int
+				s string
+			}
+			var hs2 []ha
+			for _, pe := range pass[1:] {
+				switch pe.Kind {
+				case "SI":
+					hs2 = append(hs2, ha{atoi(pe.Peer), "SI" + pe.Peer})
+				case "DP":
+					hs2 = append(hs2, ha{atoi(pe.Peer), "DP" + pe.Peer})
+				case "P":
+					hacts = append(hacts, fmt.Sprintf("P%d", pe.N))
+				case "I":
+					hacts = append(hacts, "I"+b01(pe.B))
+				case "T":
+					hacts = append(hacts, "T"+b01(pe.B))
+				case "L":
+					total = pe.N
+					for k, id := range pe.Ids {
+						idle = append(idle, id, strconv.Itoa(pe.Counts[k]))
+					}
+					hacts = append(hacts, "L["+strings.Join(pe.Ids, ",")+"]")
+				case "R":
+					r := "nil"
+					if pe.Request != nil {
+						r = e.hdrsInOrder(pe.Request)
+					}
+					hacts = append(hacts, fmt.Sprintf("R%s/%d/%s/%s/%s", pe.Peer, pe.N, r, b01(pe.B), pe.Err))
+					lastDump = pe.Dump
+				}
+			}
+			sort.SliceStable(hs2, func(a, b int) bool { return hs2[a].p < hs2[b].p })
+			for _, h := range hs2 {
+				acts = append(acts, h.s)
+			}
+			acts = append(acts, hacts...)
+			isLast := i == lastE
+			fin := 0
+			if sc.finishedAt == 0 || isLast {
+				fin = 1
+			}
+			out := "cont"
+			if isLast && res.Completed && res.Err == "" {
+				out = "done"
+			}
+			var ovs, kns []string
+			for _, o := range over {
+				ovs = append(ovs, strconv.Itoa(o.p))
+			}
+			for _, k := range known {
+				kns = append(kns, strconv.Itoa(k))
+			}
+			line := strings.Join(strings.Fields(fmt.Sprintf("K %d %d %d 1 %d %d %s %d %s %d %s", limit, fin, ev.NumPeers, total,
+				len(ovs), strings.Join(ovs, " "), len(kns), strings.Join(kns, " "), len(idle)/2, strings.Join(idle, " "))), " ")
+			goS := stripLack(strings.Join(acts, " ") + " out=" + out + " # " + e.dumpStr(lastDump))
+			if leanS := stripLack(ask(line)); leanS != goS {
+				return mismatch(i, "one pass of the loop (tick) differs from the model's order of actions: expire -> setIdle/drop -> pending -> inFlight -> idle -> (throttle, pending, reserve)* -> pending", goS, leanS)
+			}
+			ticksCompared++
+			callsCompared += len(pass)
+			i = j
+		default:
+			// a queue callback that is not part of a pass starting with the expiry scan
+			return fmt.Sprintf("fetch loop, recorded call #%d: callback %q (n=%d, b=%v) was made before the expiry scan of its tick — the model's tick always starts with expire", i, ev.Kind, ev.N, ev.B)
+		}
+	}
 	return ""
 }
